@@ -86,6 +86,49 @@ func Verif_c35_atomic() {
 	verifReach("end")
 }
 
+// Verif_c35_faults: one file-system operation that creates, writes or renames
+// fails (disk full, quota, I/O error) - and the process may additionally be
+// killed later: the file still holds its old or its new content.
+func Verif_c35_faults() {
+	verifShfmtReset()
+	write.val = true
+	perm := fs.FileMode(verifInt("perm")) & 0o777
+	vfs := zzverifshim.VFS
+	vfs["/d"] = &zzverifshim.VNode{Dir: true, Mode: fs.ModeDir | 0o755, Entries: []string{"f.sh"}}
+	vfs["/d/f.sh"] = &zzverifshim.VNode{Mode: perm, Data: []byte(verifUnformatted)}
+	f, _ := syntax.NewParser(syntax.KeepComments(true)).Parse(readerOf(verifUnformatted), "")
+	var want bytesBuffer
+	syntax.NewPrinter().Print(&want, f)
+	nOps := verifParam("ops")
+	zzverifshim.VOps = 0
+	zzverifshim.VFailAt = 1 + verifChoice("failAt", nOps)
+	zzverifshim.VCrashAt = 0
+	if verifParam("crash") != 0 {
+		zzverifshim.VCrashAt = 1 + verifChoice("crashAt", nOps+1)
+	}
+	var err error
+	completed := verifNoPanic(func() { err = formatPath("/d/f.sh", false) })
+	if !completed {
+		verifAssert(verifPanicMsg() == zzverifshim.VCrashMsg, "shfmt -w panicked")
+	}
+	node := vfs["/d/f.sh"]
+	verifAssert(node != nil, "the file vanished")
+	if node == nil {
+		return
+	}
+	data := string(node.Data)
+	verifAssert(data == verifUnformatted || data == want.String(), "after a failed write the file holds neither its old nor its new content")
+	verifAssert(node.Mode&fs.ModeType == 0 && node.Mode.Perm() == perm, "file type or permission bits changed")
+	if completed && err == nil {
+		verifAssert(data == want.String(), "a run that reports success did not write the formatted content")
+	}
+	if completed && err != nil {
+		verifReach("failed-cleanly")
+		verifObserve("err", err.Error())
+	}
+	verifReach("end")
+}
+
 type bytesBuffer = bytesBuf
 
 func readerOf(s string) *stringsReader { return newStringsReader(s) }
